@@ -221,7 +221,7 @@ def inline_atom(d: D, depth: int, oneline: bool) -> str:
         lab = label(d)
         if oneline:
             lab = lab.replace("\n", " ")
-        f = d.pick(["[{l}]", "[{t}][{l}]", "[{l}][]", "![{l}]", "![{t}][{l}]", "[{l}] [x]", "[{t}][{l}", "[{l}]:"])
+        f = d.pick(["[{l}]", "[{t}][{l}]", "[{l}][]", "![{l}]", "![{t}][{l}]", "[{l}] [x]", "[{t}][{l}", "[{l}]:", "![][{l}]", "[][{l}]", "![ ][{l}]"])
         return f.replace("{l}", lab).replace("{t}", inline(d, depth + 1, oneline, 2) if "{t}" in f else "")
     if k == "autolink":
         j = d.i(0, 5)
@@ -287,7 +287,7 @@ def tight_nest(d: D, depth: int = 0) -> str:
     independently: emphasis/strike runs directly against brackets, link tails and each other."""
     k = d.weighted([(4, "word"), (3 if depth < 3 else 0, "delim"), (3 if depth < 3 else 0, "link"), (1 if depth < 3 else 0, "image"), (1, "code"), (1, "auto")])
     if k == "word":
-        return d.pick(["a", "b", "c d", "x", "é", "1", "a b"])
+        return d.pick(["a", "b", "c d", "x", "é", "1", "a b", "\"", "'", "\"a\"", "~", "\\~", "&#126;"])
     if k == "code":
         return "`" + d.pick(["c", "*", "~~", "]", "["]) + "`"
     if k == "auto":
